@@ -1,4 +1,8 @@
 """Property table: RTPS reliability protocol family (C01, C02, C04, C05). Texts are finalised below."""
+import os
+import re
+
+from ..common import REPO
 from ..props import prop
 
 _TECH = ("Kani/CBMC symbolic execution of the real RTPS objects (RtpsStatefulWriter, RtpsReaderProxy, "
@@ -21,19 +25,96 @@ _POW = "_RNvMs7_NtCs8xvirJzNMvV_4core3numy15overflowing_powCs36Lg0Iv5OGD_8dust_d
 # harnesses, <= 2 unsent changes, <= 3 requested changes). Unwinding assertions stay on.
 _WMR = ("_RINvMs_NtNtCs36Lg0Iv5OGD_8dust_dds4rtps15stateful_writerNtNtB7_12reader_proxy15RtpsReaderProxy22write_message_reliable"
         "NtNtNtB9_26s2e_systems_dust_dds_verif12support_rtps4SentNtB1U_10FixedClockEB9_")
+# The two loops of write_message_best_effort<Sent>: the harnesses of this family only match RELIABLE reader proxies to a
+# writer, but `match self.reliability()` reads the proxy from a Vec heap buffer and symbolic execution explores both arms.
+# Bound 1 = "loop body must be unreachable" (checked by the unwinding assertion, which is on).
+_WMB = ("_RINvMs_NtNtCs36Lg0Iv5OGD_8dust_dds4rtps15stateful_writerNtNtB7_12reader_proxy15RtpsReaderProxy25write_message_best_effort"
+        "NtNtNtB9_26s2e_systems_dust_dds_verif12support_rtps4SentEB9_")
+
+
 def _cbmc(frag, unsent, requested):
-    return ["--unwindset", "memcmp.0:17,%s:18,%s.0:7,%s.1:7,%s.0:%d,%s.1:%d,%s.2:%d"
-            % (_EXTEND_WITH, _POW, _POW, _WMR, frag, _WMR, unsent, _WMR, requested)]
+    return ["--unwindset", "memcmp.0:17,%s:18,%s.0:7,%s.1:7,%s.0:%d,%s.1:%d,%s.2:%d,%s.0:1,%s.1:1"
+            % (_EXTEND_WITH, _POW, _POW, _WMR, frag, _WMR, unsent, _WMR, requested, _WMB, _WMB)]
 
 
+_TMO = {"quick": 1500, "thorough": 2400}  # per harness; measured 30-640 s each on the shared, loaded machine
 _CBMC = _cbmc(1, 3, 4)
 _CBMC_C04 = _cbmc(1, 2, 1)  # one retained change, nothing requested: 1 unsent iteration, requested loop not entered
 
+
+# ---- source guard: support_rtps::glue_* replicate private glue of communication_methods.rs ----------------------------
+_CM = "dds/src/dcps/dcps_domain_participant/communication_methods.rs"
+_HB_NEEDLES = [
+    "ifwriter_proxy.last_received_heartbeat_count()<heartbeat_submessage.count(){",
+    "writer_proxy.set_last_received_heartbeat_count(heartbeat_submessage.count());",
+    "writer_proxy.missing_changes_update(heartbeat_submessage.last_sn());",
+    "writer_proxy.lost_changes_update(heartbeat_submessage.first_sn());",
+    "letmust_send_acknacks=!heartbeat_submessage.final_flag()||(!heartbeat_submessage.liveliness_flag()&&writer_proxy.missing_changes().count()>0);",
+    "writer_proxy.set_must_send_acknacks(must_send_acknacks);",
+    "writer_proxy.write_message(&reader_guid,self.transport.message_writer.as_ref());",
+]
+_GAP_NEEDLES = [
+    "forseq_numingap_submessage.gap_start()..gap_submessage.gap_list().base(){writer_proxy.irrelevant_change_set(seq_num)}",
+    "forseq_numingap_submessage.gap_list().set(){writer_proxy.irrelevant_change_set(seq_num)}",
+]
+
+
+def _fn_text(src, name):
+    m = re.search(r"fn %s\b" % name, src)
+    if not m:
+        return None
+    i = src.index("{", m.end())
+    depth, j = 0, i
+    while j < len(src):
+        if src[j] == "{":
+            depth += 1
+        elif src[j] == "}":
+            depth -= 1
+            if depth == 0:
+                break
+        j += 1
+    return re.sub(r"\s+", "", src[i:j + 1])
+
+
+def _glue_guard():
+    """The statements support_rtps::glue_heartbeat_proxy / glue_gap_proxy replicate must still be the statements the
+    private functions handle_heartbeat_submessage / handle_gap_submessage execute on a writer proxy, in this order, and
+    those functions must not touch the writer proxy in any other way."""
+    try:
+        with open(os.path.join(REPO, _CM)) as f:
+            src = f.read()
+    except OSError as e:
+        return False, "cannot read %s: %s" % (_CM, e)
+    hb = _fn_text(src, "handle_heartbeat_submessage")
+    gap = _fn_text(src, "handle_gap_submessage")
+    if hb is None or gap is None:
+        return False, "handle_heartbeat_submessage / handle_gap_submessage not found in %s" % _CM
+    # the heartbeat glue appears twice (user readers, built-in readers): both copies must match
+    pos = 0
+    for rep in range(2):
+        for n in _HB_NEEDLES:
+            k = hb.find(n, pos)
+            if k < 0:
+                return False, "handle_heartbeat_submessage: statement %r (copy %d) not found in order" % (n, rep + 1)
+            pos = k + len(n)
+    if hb.count("writer_proxy.") != 2 * 7:
+        return False, "handle_heartbeat_submessage uses writer_proxy %d times, the replica covers 14" % hb.count("writer_proxy.")
+    pos = 0
+    for n in _GAP_NEEDLES:
+        k = gap.find(n, pos)
+        if k < 0:
+            return False, "handle_gap_submessage: statement %r not found in order" % n
+        pos = k + len(n)
+    if gap.count("writer_proxy.") != 2:
+        return False, "handle_gap_submessage uses writer_proxy %d times, the replica covers 2" % gap.count("writer_proxy.")
+    return True, "glue statements of %s match support_rtps::glue_heartbeat_proxy / glue_gap_proxy" % _CM
+
+
 prop("C01", level="other", explanation="placeholder", bounds="", outside="", level_text="", level_note="",
-     technique=_TECH, assumptions=[], cbmc_args=_CBMC)
+     technique=_TECH, assumptions=[], cbmc_args=_CBMC, timeout=_TMO, guards=[_glue_guard])
 prop("C02", level="other", explanation="placeholder", bounds="", outside="", level_text="", level_note="",
-     technique=_TECH, assumptions=[], cbmc_args=_CBMC)
+     technique=_TECH, assumptions=[], cbmc_args=_CBMC, timeout=_TMO, guards=[_glue_guard])
 prop("C04", level="other", explanation="placeholder", bounds="", outside="", level_text="", level_note="",
-     technique=_TECH, assumptions=[], cbmc_args=_CBMC_C04)
+     technique=_TECH, assumptions=[], cbmc_args=_CBMC_C04, timeout=_TMO, guards=[_glue_guard])
 prop("C05", level="other", explanation="placeholder", bounds="", outside="", level_text="", level_note="",
-     technique=_TECH, assumptions=[], cbmc_args=_CBMC)
+     technique=_TECH, assumptions=[], cbmc_args=_CBMC, timeout=_TMO, guards=[_glue_guard])
